@@ -1,3 +1,18 @@
 from props.common import run_all as run  # noqa: F401
 
-META = {"claimed": False, "reason": "check not built yet (work in progress; the technique applies, see DESIGN.md section 5)"}
+META = {
+    "claimed": True,
+    "title": "Pointer heap and timer queue are correct priority queues with stable handles",
+    "level_text": ("proof: ptrheap.c is modelled operation for operation (swap with two record-cookie notifications, heapifyup, three-way heapify with the C's comparison order, bottom-up create with the "
+                   "unsigned-wrap loop guard, delete moving the last element into the hole with N still counting the stale slot) parametric in a total preorder with a C-style three-way compar; "
+                   "25 theorems: every operation returns Ok (no fault, no assert, fuel suffices), preserves heap order, changes the multiset exactly as specified, keeps every element's last-notified "
+                   "position pointing at it (C13_handles_consistent, C13_delete_by_handle); the root is a least element (C13_getmin_least); the same over whole operation histories under any allocation "
+                   "oracle (C13_heap_histories*); timer queue: tvcmp lexicographic, getptr returns the stored pointer of a least entry iff its time <= the query time else NULL with no change "
+                   "(C13_tq_getptr), successive releases in non-decreasing time order (C13_tq_release_order), cookies valid across every other operation (C13_tq_histories). Unbounded in sizes and "
+                   "history length. Bound to the C by the correspondence run (integer keys with many duplicates, create-from-array, sizes to thousands, full notification sequence compared) and an "
+                   "independent trace predicate on the implementation's outputs."),
+    "level_note": ("Trusted: Coq kernel; hand-written Gallina model bound by differential execution (ASan); indices are nat under the hypothesis 8n+8 < 2^63 (the overflow guards of "
+                   "elasticarray_append are C12's subject); the underlying pointer array is a list. Print Assumptions: closed under the global context."),
+    "trusted_base": ["timer-queue callbacks applied after each heap call rather than during it (compar only reads tv, setreccookie only writes rc)"],
+    "assumptions": ["caller honours the documented preconditions of increase/decrease (key grew / shrank) and passes valid handles"],
+}
